@@ -14,7 +14,7 @@ CHECKS['C15'] = dict(
          'order, reverse order and with the attribute caches on and pre-filled, json() valid once wrapped as the encoder wraps it; (4) on every ordered '
          'pair of a family alphabet: a == b => same index() and hash(), == symmetric and consistent with !=, members whose path id, RD or prefix (read from '
          'the bytes by the RFC layout) differ never share nlri.index() nor Route.index(); one table across families for index collisions between families. '
-         'Exhaustive over the frozen alphabet, which is the right level for per-type codecs whose defects are per type, not per value.',
+         'Exhaustive over the frozen alphabet, which is the right level for per-type codecs whose defects are per type, not per value. Law 5: every NLRI member against each of its one-octet neighbours (each octet, lowest and highest bit flipped) that decodes and packs back: a different RFC key means a different nlri.index() and Route.index(). JSON of attributes and NLRI is read strictly (no duplicate key, no NaN / Infinity tokens).',
     note='Trusted: vt/ref/wire.py for the IP families; the hand-transcribed RFC layouts in tools/harvest_c15.py and ref_key() in vt/checks/c15.py. Tolerated: '
          'labels never enter the key (RFC 8277), the label field of a withdrawn labeled NLRI (weak law only), attribute order in a re-encoded UPDATE, the PARTIAL '
          'bit on unknown attributes, None vs 0 path identifier, generic-attribute text for a known code. Outside: families ignore ADD-PATH symmetrically (15 of 23), '
